@@ -267,6 +267,16 @@ def rule_splice_order(ctx: RuleContext, p: Program, rid: str) -> None:
         back = next((k.value.value for k in c.keywords if k.arg == 'backwards' and isinstance(k.value, ast.Constant)), None)
         a_txt, b_txt = norm(c.args[1]), norm(c.args[2])
         site = 'models.internal.interleaving_comments:_CommentClaimer.claim'
+        # ... and the other end is the FARTHEST comment the field takes over on that side: everything in between changes sides
+        far_end = ev2.ev(claim, c.args[1] if back else c.args[2], env2, 'claim')
+        if not isinstance(far_end, Pos):
+            raise AnalysisError(f'SPLICE-ORDER: cannot derive the far end of `{norm(c)[:70]}`')
+        ctx.check(far_end.label.startswith('farthest of'), rid, site_far := 'models.internal.interleaving_comments:_CommentClaimer.claim',
+                  f'{"backwards" if back else "forwards"} shift reaches the farthest claimed comment',
+                  f'the {"backwards" if back else "forwards"} shift `{norm(c)[:90]}` ranges to the {far_end.label}, not to the farthest comment found on that '
+                  f'side: with two or more comments claimed there, the placeholder{"" if back else "s of the following fields"} end{"s" if back else ""} up '
+                  f'between them, so the field\'s span {"starts inside" if back else "overlaps the next field\'s first token"}',
+                  f'{ic.relpath}:{c.lineno}', note=far_end.label)
         if back is True:
             ok = b_txt == 'self._repeated.first_token'
             ctx.check(ok, rid, site, 'backwards shift ends at own placeholder',
